@@ -38,21 +38,23 @@ structure Holds (cfg : Cfg) : Prop where
       (crc ((rest.drop 16).take (decodeBlockHeader rest).csize)).toNat = (decodeBlockHeader rest).crc ∧
       ∃ u, d.dec ((rest.drop 16).take (decodeBlockHeader rest).csize) = some u ∧
         u.length % 2 ^ 32 = (decodeBlockHeader rest).usize ∧
-        parseEntries (decodeBlockHeader rest).count u = .ok es
+        parseEntries (decodeBlockHeader rest).count u = .ok es ∧
+        sizeSum es = u.length
   /-- allocation is proportional to the file -/
   alloc : ∀ (d : Decoder) (crc : Checksum) (file : Bytes), DecoderSane d →
     loadAlloc cfg d crc file ≤ 321 * file.length + 3300000
 
 def Good (cfg : Cfg) : Prop :=
-  cfg.validatesCrc = true ∧ cfg.validatesULen = true ∧ cfg.boundsCompressedSize = true ∧ cfg.boundsDecodedLen = true
+  cfg.validatesCrc = true ∧ cfg.validatesULen = true ∧ cfg.boundsCompressedSize = true ∧
+  cfg.boundsDecodedLen = true ∧ cfg.parseConsumesAll = true
 
 theorem holds_of_good (cfg : Cfg) (hg : Good cfg) : Holds cfg := by
-  obtain ⟨h1, h2, h3, h4⟩ := hg
+  obtain ⟨h1, h2, h3, h4, h5⟩ := hg
   refine ⟨reader_total cfg, ?_, fun d crc file hs => alloc_bounded cfg d crc file ⟨h3, h4⟩ hs⟩
   intro d crc rest es rest' h
   have ha := readNextBlock_sound cfg d crc rest es rest' h
-  obtain ⟨u, hu, hl, hp⟩ := ha.decoded
-  exact ⟨ha.crcOk h1, u, hu, hl h2, hp⟩
+  obtain ⟨u, hu, hl, hp, hc⟩ := ha.decoded
+  exact ⟨ha.crcOk h1, u, hu, hl h2, hp, hc h5⟩
 
 /-- `_partial`: termination and checksum-soundness do not depend on the allocation guards -/
 def HoldsPartial (cfg : Cfg) : Prop :=
@@ -70,15 +72,11 @@ theorem holds_partial (cfg : Cfg) : HoldsPartial cfg := by
   refine ⟨reader_total cfg, ?_⟩
   intro h1 h2 d crc rest es rest' h
   have ha := readNextBlock_sound cfg d crc rest es rest' h
-  obtain ⟨u, hu, hl, hp⟩ := ha.decoded
+  obtain ⟨u, hu, hl, hp, _⟩ := ha.decoded
   exact ⟨ha.crcOk h1, u, hu, hl h2, hp⟩
 
 /-- non-vacuity: the repaired facts exist, and the hypothesis `DecoderSane` is met by a real decoder -/
-def goodCfg : Cfg :=
-  { rejectsEmptyKey := true, rejectsLongKey := true, flushGe := true, flushAtCount := true,
-    deleteRemoves := true, validatesCrc := true, validatesULen := true, boundsCompressedSize := true,
-    boundsDecodedLen := true, v2Fallback := true, rejectsLongName := true }
-example : Good goodCfg := ⟨rfl, rfl, rfl, rfl⟩
+example : Good goodCfg := ⟨rfl, rfl, rfl, rfl, rfl⟩
 example : DecoderSane idCodec.toDecoder := by intro c u h; simp [idCodec] at h; subst h; simp [idCodec]
 
 /-! ### Witnesses for the defective fact values (closed terms) -/
@@ -215,7 +213,8 @@ theorem not_holds_of_noCrc (cfg : Cfg) (hb : cfg.validatesCrc = false) : ¬ Hold
   have hnb : readNextBlock cfg idCodec.toDecoder crcOne badCrcBlock = .ok [oneEntry] [] := by
     unfold readNextBlock
     simp only [shorterThan_eq, decide_eq_true_eq, hlen, hdec, hafter, hel]
-    simp [parseBlock, hb, idCodec, hel, hpe, htake, hdrop, hne]
+    have hsz : sizeSum [oneEntry] = 8 := by simp [sizeSum, Entry.size, oneEntry]
+    simp [parseBlock, finishParse, hsz, hb, idCodec, hel, hpe, htake, hdrop, hne]
   have := (hh.sound idCodec.toDecoder crcOne badCrcBlock [oneEntry] [] hnb).1
   rw [hdec] at this
   simp [crcOne] at this
@@ -240,13 +239,52 @@ theorem not_holds_of_noULen (cfg : Cfg) (hb : cfg.validatesULen = false) : ¬ Ho
   have hnb : readNextBlock cfg idCodec.toDecoder crc0 badLenBlock = .ok [oneEntry] [] := by
     unfold readNextBlock
     simp only [shorterThan_eq, decide_eq_true_eq, hlen, hdec, hafter, hel]
-    simp [parseBlock, hb, idCodec, hel, hpe, crc0, htake, hdrop, hne]
-  obtain ⟨_, u, hu, hul, _⟩ := hh.sound idCodec.toDecoder crc0 badLenBlock [oneEntry] [] hnb
+    have hsz : sizeSum [oneEntry] = 8 := by simp [sizeSum, Entry.size, oneEntry]
+    simp [parseBlock, finishParse, hsz, hb, idCodec, hel, hpe, crc0, htake, hdrop, hne]
+  obtain ⟨_, u, hu, hul, _, _⟩ := hh.sound idCodec.toDecoder crc0 badLenBlock [oneEntry] [] hnb
   rw [hdec] at hu hul
   simp only [hafter, htake] at hu
   simp [idCodec] at hu
   subst hu
   simp [hel] at hul
+
+/-- Two entries on disk — insert `k`, then delete `k` — under a block header whose `EntryCount`
+    was changed from 2 to 1 (one flipped bit in a field no checksum covers): every check passes
+    and the delete is silently dropped, so the deleted record comes back. -/
+def delEntry : Entry := ⟨3, [0x6b], []⟩
+def lowCountBlock : Bytes := encodeBlockHeader ⟨16, 16, 1, 0, 0⟩ ++ (encodeEntry oneEntry ++ encodeEntry delEntry)
+
+theorem not_holds_of_trailingIgnored (cfg : Cfg) (hb : cfg.parseConsumesAll = false) : ¬ Holds cfg := by
+  intro hh
+  have hdec : decodeBlockHeader lowCountBlock = ⟨16, 16, 1, 0, 0⟩ :=
+    decodeBlockHeader_encode ⟨16, 16, 1, 0, 0⟩ _ (by decide) (by decide) (by decide) (by decide) (by decide)
+  have hel : (encodeEntry oneEntry ++ encodeEntry delEntry).length = 16 := by
+    simp [encodeEntry, oneEntry, delEntry]
+  have hlen : lowCountBlock.length = 32 := by simp [lowCountBlock, encodeBlockHeader_length, hel]
+  have hafter : lowCountBlock.drop 16 = encodeEntry oneEntry ++ encodeEntry delEntry :=
+    drop_append_len _ _ 16 (encodeBlockHeader_length _)
+  have hpe : parseEntries 1 (encodeEntry oneEntry ++ encodeEntry delEntry) = .ok [oneEntry] := by
+    have := parseEntries_prefix 1 [oneEntry, delEntry] []
+      (by intro e he; simp at he; rcases he with h | h <;> subst h <;> decide) (by simp)
+    simpa [encodeEntries] using this
+  have htake : (encodeEntry oneEntry ++ encodeEntry delEntry).take 16 = encodeEntry oneEntry ++ encodeEntry delEntry :=
+    List.take_of_length_le (by omega)
+  have hdrop : (encodeEntry oneEntry ++ encodeEntry delEntry).drop 16 = [] := List.drop_eq_nil_of_le (by omega)
+  have hne : encodeEntry oneEntry ++ encodeEntry delEntry ≠ [] := by intro h; rw [h] at hel; simp at hel
+  have hnb : readNextBlock cfg idCodec.toDecoder crc0 lowCountBlock = .ok [oneEntry] [] := by
+    unfold readNextBlock
+    simp only [shorterThan_eq, decide_eq_true_eq, hlen, hdec, hafter, hel]
+    simp [parseBlock, finishParse, hb, idCodec, hel, hpe, crc0, htake, hdrop, hne]
+  obtain ⟨_, u, hu, _, _, hsz⟩ := hh.sound idCodec.toDecoder crc0 lowCountBlock [oneEntry] [] hnb
+  rw [hdec] at hu
+  simp only [hafter, htake] at hu
+  simp [idCodec] at hu
+  subst hu
+  rw [hel] at hsz
+  simp [sizeSum, Entry.size, oneEntry] at hsz
+
+/-- …and at the level of `LoadIndex`: the replayed state contains the deleted key -/
+example : replay goodCfg [oneEntry] = [([0x6b], [])] ∧ replay goodCfg [oneEntry, delEntry] = [] := by decide
 
 /-! ### Decision over the extracted facts -/
 
@@ -261,6 +299,7 @@ structure Facts where
   validatesULen : Tri
   boundsCompressedSize : Tri
   boundsDecodedLen : Tri
+  parseConsumesAll : Tri
   deriving Repr
 
 def cfgOf (f : Facts) : Cfg :=
@@ -268,7 +307,8 @@ def cfgOf (f : Facts) : Cfg :=
     validatesCrc := f.validatesCrc.isYes
     validatesULen := f.validatesULen.isYes
     boundsCompressedSize := f.boundsCompressedSize.isYes
-    boundsDecodedLen := f.boundsDecodedLen.isYes }
+    boundsDecodedLen := f.boundsDecodedLen.isYes
+    parseConsumesAll := f.parseConsumesAll.isYes }
 
 /-- the parts of the reader the model hard-wires -/
 def shapeOk (f : Facts) : Bool :=
@@ -278,13 +318,14 @@ def shapeOk (f : Facts) : Bool :=
 
 def hasUnknown (f : Facts) : Bool :=
   f.validatesCrc == .unknown || f.validatesULen == .unknown || f.boundsCompressedSize == .unknown ||
-  f.boundsDecodedLen == .unknown
+  f.boundsDecodedLen == .unknown || f.parseConsumesAll == .unknown
 
 def findings (f : Facts) : List String :=
   (if f.validatesCrc == .no then ["C04-checksum-not-validated"] else []) ++
   (if f.validatesULen == .no then ["C04-decoded-length-not-validated"] else []) ++
   (if f.boundsCompressedSize == .no then ["C04-unbounded-compressed-size-alloc"] else []) ++
-  (if f.boundsDecodedLen == .no then ["C04-unbounded-decoded-length-alloc"] else [])
+  (if f.boundsDecodedLen == .no then ["C04-unbounded-decoded-length-alloc"] else []) ++
+  (if f.parseConsumesAll == .no then ["C04-entry-count-unprotected"] else [])
 
 def classify (f : Facts) : Verdict :=
   if !shapeOk f then .undetermined "reader shape facts (magic/version check, entry bounds checks, short header = EOF, CRC before decompress) differ from the model"
@@ -300,7 +341,7 @@ theorem classify_sound (f : Facts) : (classify f).Sound (Holds (cfgOf f)) (Holds
     · trivial
     · rename_i hu
       simp only [hasUnknown, Bool.or_eq_true, beq_iff_eq, not_or] at hu
-      obtain ⟨⟨⟨hu1, hu2⟩, hu3⟩, hu4⟩ := hu
+      obtain ⟨⟨⟨⟨hu1, hu2⟩, hu3⟩, hu4⟩, hu5⟩ := hu
       split
       · rename_i hf
         refine ⟨?_, holds_partial _⟩
@@ -312,13 +353,16 @@ theorem classify_sound (f : Facts) : (classify f).Sound (Holds (cfgOf f)) (Holds
             · exact not_holds_of_unboundedCompressedSize _ (by simp [cfgOf, h3, Tri.isYes])
             · by_cases h4 : f.boundsDecodedLen = .no
               · exact not_holds_of_unboundedDecodedLen _ (by simp [cfgOf, h4, Tri.isYes])
-              · exfalso; simp [findings, h1, h2, h3, h4] at hf
+              · by_cases h5 : f.parseConsumesAll = .no
+                · exact not_holds_of_trailingIgnored _ (by simp [cfgOf, h5, Tri.isYes])
+                · exfalso; simp [findings, h1, h2, h3, h4, h5] at hf
       · rename_i hf
         have h1 : f.validatesCrc = .yes := by cases h : f.validatesCrc <;> simp_all [findings]
         have h2 : f.validatesULen = .yes := by cases h : f.validatesULen <;> simp_all [findings]
         have h3 : f.boundsCompressedSize = .yes := by cases h : f.boundsCompressedSize <;> simp_all [findings]
         have h4 : f.boundsDecodedLen = .yes := by cases h : f.boundsDecodedLen <;> simp_all [findings]
+        have h5 : f.parseConsumesAll = .yes := by cases h : f.parseConsumesAll <;> simp_all [findings]
         exact holds_of_good _ ⟨by simp [cfgOf, h1, Tri.isYes], by simp [cfgOf, h2, Tri.isYes],
-          by simp [cfgOf, h3, Tri.isYes], by simp [cfgOf, h4, Tri.isYes]⟩
+          by simp [cfgOf, h3, Tri.isYes], by simp [cfgOf, h4, Tri.isYes], by simp [cfgOf, h5, Tri.isYes]⟩
 
 end Hv.C04
